@@ -158,6 +158,8 @@ var fieldWr struct {
 	addrTaken map[string]bool
 	reach     map[string]map[*ssa.Function]bool
 	reflectW  map[*ssa.Function]bool
+	elemW     map[string]map[*ssa.Function]bool // struct name -> functions that may write an element / a value of that struct type
+	elemReach map[string]map[*ssa.Function]bool
 }
 
 func structKeyOf(t types.Type) (string, *types.Struct) {
@@ -174,6 +176,31 @@ func (p *Program) buildFieldWriters() {
 	fw.writers = map[string]map[*ssa.Function]bool{}
 	fw.addrTaken = map[string]bool{}
 	fw.reach = map[string]map[*ssa.Function]bool{}
+	fw.elemW = map[string]map[*ssa.Function]bool{}
+	fw.elemReach = map[string]map[*ssa.Function]bool{}
+	addE := func(t types.Type, f *ssa.Function) {
+		// t, or what it points to / holds, is a struct type: f may write values of it
+		for d := 0; d < 4; d++ {
+			switch u := types.Unalias(t).Underlying().(type) {
+			case *types.Pointer:
+				t = u.Elem()
+				continue
+			case *types.Slice:
+				t = u.Elem()
+				continue
+			case *types.Array:
+				t = u.Elem()
+				continue
+			}
+			break
+		}
+		if name, u := structKeyOf(t); u != nil {
+			if fw.elemW[name] == nil {
+				fw.elemW[name] = map[*ssa.Function]bool{}
+			}
+			fw.elemW[name][f] = true
+		}
+	}
 	addW := func(key string, f *ssa.Function) {
 		if fw.writers[key] == nil {
 			fw.writers[key] = map[*ssa.Function]bool{}
@@ -241,6 +268,27 @@ func (p *Program) buildFieldWriters() {
 						for i := 0; i < u.NumFields(); i++ {
 							addW(name+"."+u.Field(i).Name(), f)
 						}
+					}
+					// element writers: a store of a struct value, or to a field of a struct reached
+					// through a pointer or an index (the pointer may point into a slice)
+					addE(x.Val.Type(), f)
+					switch a := x.Addr.(type) {
+					case *ssa.FieldAddr:
+						addE(a.X.Type(), f)
+					case *ssa.IndexAddr:
+						addE(a.X.Type(), f)
+					}
+				case *ssa.MakeInterface:
+					// a slice or pointer converted to an interface can be written reflectively
+					// (sort.Slice, decoders) by whoever receives it
+					switch types.Unalias(x.X.Type()).Underlying().(type) {
+					case *types.Slice, *types.Pointer:
+						addE(x.X.Type(), f)
+					}
+				case ssa.CallInstruction:
+					cc := x.Common()
+					if b, ok := cc.Value.(*ssa.Builtin); ok && (b.Name() == "append" || b.Name() == "copy") && len(cc.Args) > 0 {
+						addE(cc.Args[0].Type(), f)
 					}
 				}
 			}
@@ -467,3 +515,61 @@ func derivesFromParam(v ssa.Value, depth int) bool {
 	}
 	return false
 }
+
+// mayWriteElems: may a call of fn change a value of the struct type named structName that lives in a
+// slice (element heap "E.<structName>")? Writers are the functions that store such a value, store to
+// one of its fields through a pointer or an index, append/copy to a slice of it, or convert a slice of /
+// pointer to it to an interface (reflective writers such as sort.Slice and the decoders).
+func (p *Program) mayWriteElems(fn *ssa.Function, structName string) bool {
+	if fn == nil {
+		return true
+	}
+	pkgReach.mu.Lock()
+	defer pkgReach.mu.Unlock()
+	fw := &fieldWr
+	if !fw.built {
+		p.buildFieldWriters()
+	}
+	r, ok := fw.elemReach[structName]
+	if !ok {
+		r = backwardClosure(pkgReach.cg, fw.elemW[structName])
+		fw.elemReach[structName] = r
+	}
+	return r[fn]
+}
+
+// calleesAt: the functions the call instruction may invoke according to the VTA-refined CHA call
+// graph (nil if the site is unknown to the graph: nothing can be concluded then).
+func (p *Program) calleesAt(fn *ssa.Function, site ssa.CallInstruction) []*ssa.Function {
+	pkgReach.mu.Lock()
+	defer pkgReach.mu.Unlock()
+	if pkgReach.cg == nil {
+		pkgReach.cg = vta.CallGraph(ssautil.AllFunctions(p.Prog), cha.CallGraph(p.Prog))
+		pkgReach.sets = map[string]map[*ssa.Function]bool{}
+	}
+	var out []*ssa.Function
+	if n := pkgReach.cg.Nodes[fn]; n != nil {
+		for _, e := range n.Out {
+			if e.Site == site && e.Callee.Func != nil {
+				out = append(out, e.Callee.Func)
+			}
+		}
+	}
+	if len(out) == 0 {
+		// no concrete receiver flows to the site inside the loaded program (the value comes from
+		// outside): every implementation of the method in the program (class hierarchy analysis)
+		if chaOnly == nil {
+			chaOnly = cha.CallGraph(p.Prog)
+		}
+		if n := chaOnly.Nodes[fn]; n != nil {
+			for _, e := range n.Out {
+				if e.Site == site && e.Callee.Func != nil {
+					out = append(out, e.Callee.Func)
+				}
+			}
+		}
+	}
+	return out
+}
+
+var chaOnly *callgraph.Graph
